@@ -8,6 +8,10 @@ from props import e1util
 from props.e1util import unhex
 
 TIE = ["Nsq.Tie.Wire", "Nsq.Tie.WireFn"]
+# audit round 7, B28 (builder codec2): ties the old extractor was blind to — the fan-out loop with its call
+# statements, `continue` and nesting (kind stmtsx), and the protocol magics tied to the model's bytes
+TIE_B28 = ["Nsq.Tie.FanoutX", "Nsq.Tie.MagicBytes"]
+TIE = TIE + TIE_B28
 PROPS = ["Nsq.Props.C07", "Nsq.Props.C07Path", "Nsq.Props.C07Fn"]
 
 
@@ -51,6 +55,8 @@ def run(ctx):
                 "a case is distinct by its operation line; non-trivial = not an error answer")
     gen_ok, _ = ctx.gen("e1_codec")
     ctx.gen("e1_bytes")   # translated WriteTo / decodeMessage / SendFramedResponse / SendResponse / readLen (kind bytes)
+    for spec in ("e1_guidloop", "e3_proto", "e4_proto"):   # Gen.GuidLoop (fanoutLoop), Gen.Proto / Gen.LookupdProto (magics)
+        ctx.gen(spec)
     ok, log = ctx.lean_build(TIE + PROPS)
     if not ok:
         ctx.lean_obligation_failed("lake build " + " ".join(TIE + PROPS), log[-1500:])
